@@ -260,6 +260,7 @@ func runC11(x *X) {
 		}
 	})
 	runC11Equal(x)
+	runC11Neighbours(x)
 }
 
 type c11State struct {
